@@ -112,6 +112,29 @@ pub fn generate(rng: &mut Rng, tier: Tier, emit: &mut dyn FnMut(String)) {
         }
     }
 
+    // ---- deserialize WITHOUT type_check (the panic sites of the typed readers) ----
+    for e in all.iter().filter(|e| e.deser.is_some() && e.tc.is_some()) {
+        let mut tys: Vec<Ty> = ns.clone();
+        for t in naturals(e) {
+            tys.extend(mutations(&t));
+            tys.push(t);
+        }
+        for (i, t) in d1.iter().enumerate() {
+            if thorough || i % 9 == (e.label.len() % 9) {
+                tys.push(t.clone());
+            }
+        }
+        for _ in 0..(if thorough { 200 } else { 20 }) {
+            tys.push(random_ty(rng, 2));
+        }
+        let mut seen = std::collections::HashSet::new();
+        for t in tys {
+            if seen.insert(ty_str(&t)) {
+                emit(format!("deser {} | {} | {}", e.label, cd_str(&e.cd), ty_str(&t)));
+            }
+        }
+    }
+
     // ---- row-level type_check ----
     let pool: Vec<Ty> = {
         let mut p = ns.clone();
@@ -367,10 +390,13 @@ fn gen_pager(rng: &mut Rng, thorough: bool, emit: &mut dyn FnMut(String)) {
             if ext && target.starts_with("S/") {
                 continue; // the session cases run without the metadata-id extension
             }
-            let head = format!("pager {} {} {} | {}", target, ext as u8, skip as u8, cols_str(&nat));
+            let head = format!("pager {} {} {} stop | {}", target, ext as u8, skip as u8, cols_str(&nat));
+            // the consumer that keeps polling through error items, to the end of the stream
+            let head_all = format!("pager {} {} {} all | {}", target, ext as u8, skip as u8, cols_str(&nat));
             let nometa_ok = ext || skip;
             // all pages alike
             emit(format!("{} | {} | {}", head, page(2, false, &nat), page(3, false, &nat)));
+            emit(format!("{} | {} | {}", head_all, page(2, false, &nat), page(3, false, &nat)));
             for v in &vars {
                 // the change arrives with page 1 / page 2 / after a zero-sized page / on the first page
                 emit(format!("{} | {} | {}", head, page(2, false, &nat), page(2, ext, v)));
@@ -380,35 +406,43 @@ fn gen_pager(rng: &mut Rng, thorough: bool, emit: &mut dyn FnMut(String)) {
                 emit(format!("{} | {} | {}", head, page(1, false, v), page(1, false, &nat)));
                 // changes and changes back
                 emit(format!("{} | {} | {} | {}", head, page(1, false, &nat), page(0, false, v), page(2, false, &nat)));
+                // polled to the end: a non-fitting page of SEVERAL rows (every one of them must be refused, not only
+                // the first), followed by pages that fit again
+                emit(format!("{} | {} | {} | {}", head_all, page(2, false, &nat), page(3, ext, v), page(2, ext, &nat)));
+                emit(format!("{} | {} | {} | {} | {}", head_all, page(1, false, &nat), page(2, false, v), page(0, false, &nat), page(2, false, v)));
+                emit(format!("{} | {} | {} | {}", head_all, page(0, false, &nat), page(4, false, v), page(1, false, &nat)));
                 if nometa_ok {
                     emit(format!("{} | 2 nometa | {} | 1 nometa", head, page(1, ext, v)));
                     emit(format!("{} | 1 nometa | 0 nometa | {}", head, page(2, false, v)));
+                    emit(format!("{} | 2 nometa | {} | 2 nometa", head_all, page(3, ext, v)));
                 }
                 if ext {
                     // the id changes but the columns do not; the columns change but no id is announced
                     emit(format!("{} | {} | {} | {}", head, page(1, false, &nat), page(1, true, &nat), page(1, false, v)));
                     emit(format!("{} | {} | {} | 1 nometa", head, page(1, false, &nat), page(1, true, v)));
+                    emit(format!("{} | {} | {} | 2 nometa | {}", head_all, page(1, false, &nat), page(2, true, v), page(2, true, &nat)));
                 }
             }
             if nometa_ok {
                 emit(format!("{} | 2 nometa | 0 nometa | 3 nometa", head));
             }
-            // random scripts
-            for _ in 0..(if thorough { 60 } else { 6 }) {
+            // random scripts, both consumers
+            for r in 0..(if thorough { 60 } else { 8 }) {
                 let n = 1 + rng.below(5) as usize;
                 let pages: Vec<String> = (0..n)
                     .map(|_| {
-                        let rows = *rng.pick(&[0usize, 0, 1, 2, 3]);
+                        let rows = *rng.pick(&[0usize, 0, 1, 2, 3, 4]);
                         if nometa_ok && rng.chance(1, 4) {
                             format!("{} nometa", rows)
                         } else if rng.chance(2, 3) {
                             page(rows, ext && rng.chance(1, 3), &nat)
                         } else {
-                            { let v: &Vec<PCol> = rng.pick(&vars[..]); page(rows, ext && rng.chance(1, 3), v) }
+                            let v: &Vec<PCol> = rng.pick(&vars[..]);
+                            page(rows, ext && rng.chance(1, 3), v)
                         }
                     })
                     .collect();
-                emit(format!("{} | {}", head, pages.join(" | ")));
+                emit(format!("{} | {}", if r % 2 == 0 { &head_all } else { &head }, pages.join(" | ")));
             }
         }
     }
@@ -453,12 +487,19 @@ fn gen_bindrow(rng: &mut Rng, thorough: bool, emit: &mut dyn FnMut(String)) {
             c.push(nat[i].clone());
             variants.push(c);
         }
+        // two (and three) keys that no marker uses: the error must name the lexicographically smallest
+        let extra2 = format!("{}{}zz {} ; aa {}", if n == 0 { "" } else { &map_vals }, if n == 0 { "" } else { " ; " }, val(0, 0), val(1, 0));
+        let extra3 = format!("mm {} ; {}", val(0, 1), extra2);
         for cols in &variants {
-            if cols.iter().any(|(_, t)| ty_str(t).contains("vector")) && false {
-                continue;
-            }
             emit(format!("bindrow seq | {} | {}", cols_str(cols), seq_vals));
             emit(format!("bindrow map | {} | {}", cols_str(cols), map_vals));
+        }
+        emit(format!("bindrow map | {} | {}", cols_str(&nat), extra2));
+        emit(format!("bindrow map | {} | {}", cols_str(&nat), extra3));
+        if n > 1 {
+            // two markers without a value: the first one (in marker order) is reported
+            let only_last = format!("c{} {}", n - 1, val(picks[n - 1].0, picks[n - 1].1));
+            emit(format!("bindrow map | {} | {}", cols_str(&nat), only_last));
         }
     }
     // the tuple (i32, String, Vec<i32>)
@@ -480,6 +521,20 @@ fn gen_bindrow(rng: &mut Rng, thorough: bool, emit: &mut dyn FnMut(String)) {
     }
     for cols in &vars {
         emit(format!("bindrow tup3 | {} | {}", cols_str(cols), t3));
+    }
+    // the other arities and the two empty row types
+    let t1 = format!("x {}", 42i32.shape(false));
+    let t2 = format!("x {} ; x {}", 42i32.shape(false), "abc".to_owned().shape(false));
+    let mut small: Vec<Vec<(String, Ty)>> = vec![vec![], nat3[..1].to_vec(), nat3[..2].to_vec(), nat3.clone()];
+    for m in mutations(&int).into_iter().take(if thorough { 30 } else { 8 }) {
+        small.push(vec![("a".to_owned(), m.clone())]);
+        small.push(vec![("a".to_owned(), int.clone()), ("b".to_owned(), m)]);
+    }
+    for cols in &small {
+        emit(format!("bindrow tup1 | {} | {}", cols_str(cols), t1));
+        emit(format!("bindrow tup2 | {} | {}", cols_str(cols), t2));
+        emit(format!("bindrow unit | {} | -", cols_str(cols)));
+        emit(format!("bindrow u80 | {} | -", cols_str(cols)));
     }
     // frames
     let sers: Vec<&Entry> = all_entries().iter().filter(|e| e.add.is_some() && e.dynval.is_none()).collect();
